@@ -174,9 +174,17 @@ func (e *Engine) registerIntrinsics() {
 		c.st.audit = true
 		return c.ret(nil)
 	})
+	r(vnPkg+".WatchSharedWrites", func(c *CallCtx) []Outcome {
+		// every object that exists now is "shared" (it outlives the call that follows and is reachable
+		// by a concurrent call); objects allocated from here on are local to the audited call
+		c.st.ghost["watchshared"] = I(atomic.LoadInt64(&objSeq))
+		c.st.audit = true
+		return c.ret(nil)
+	})
+	r(vnPkg+".LocksHeld", func(c *CallCtx) []Outcome { return c.ret(I(int64(len(c.st.lockset)))) })
 	r(vnPkg+".Unwatch", func(c *CallCtx) []Outcome {
 		for k := range c.st.ghost {
-			if strings.HasPrefix(k, "watch:") || strings.HasPrefix(k, "watchw:") {
+			if strings.HasPrefix(k, "watch:") || strings.HasPrefix(k, "watchw:") || k == "watchshared" {
 				delete(c.st.ghost, k)
 			}
 		}
@@ -604,7 +612,7 @@ func (e *Engine) buildFinding(st *State, label, kind, where string, extra *Term)
 
 func (e *Engine) reportFinding(st *State, label, kind, where string, extra *Term) {
 	sig := st.harness + "|" + label + "|" + strings.Join(st.tags, ">")
-	if kind == "panic" {
+	if kind == "panic" || strings.HasPrefix(label, "lock-discipline/shared-") {
 		sig += "|" + where
 	}
 	e.mu.Lock()
